@@ -143,3 +143,31 @@ theorem zoom_of_first_tile_is_not_enough (h : Header) :
   decide
 
 end Pm.Finalize
+
+namespace Pm.Finalize
+open Pm Pm.Header
+
+/-- a center the source declares is kept: the default is applied only when all THREE center fields are zero
+    (zoom 0 with a real position is a declared center) -/
+theorem declared_center_kept (h : Header) (entries : List Entry)
+    (hd : ¬ (h.centerZoom = 0 ∧ h.centerLonE7 = 0 ∧ h.centerLatE7 = 0)) :
+    (setZoomCenterDefaults h entries).centerZoom = h.centerZoom ∧
+    (setZoomCenterDefaults h entries).centerLonE7 = h.centerLonE7 ∧
+    (setZoomCenterDefaults h entries).centerLatE7 = h.centerLatE7 := by
+  unfold setZoomCenterDefaults
+  simp only
+  rw [if_neg hd]
+  exact ⟨rfl, rfl, rfl⟩
+
+/-- no center declared: the minimum zoom and the midpoint of the bounds (Go's int32 arithmetic) -/
+theorem absent_center_defaulted (h : Header) (entries : List Entry)
+    (hz : h.centerZoom = 0 ∧ h.centerLonE7 = 0 ∧ h.centerLatE7 = 0) :
+    (setZoomCenterDefaults h entries).centerZoom = (setZoomCenterDefaults h entries).minZoom ∧
+    (setZoomCenterDefaults h entries).centerLonE7 = i32avg h.minLonE7 h.maxLonE7 ∧
+    (setZoomCenterDefaults h entries).centerLatE7 = i32avg h.minLatE7 h.maxLatE7 := by
+  unfold setZoomCenterDefaults
+  simp only
+  rw [if_pos hz]
+  exact ⟨rfl, rfl, rfl⟩
+
+end Pm.Finalize
